@@ -248,6 +248,15 @@ fn c09(tier: Tier) -> i32 {
                     ("p_one".to_string(), st("one")),
                     ("p_other".to_string(), s(vec![text("other"), var("count")])),
                     ("r".to_string(), Val::RawJson("[\"i8\", [\"zero\", 0], [\"pos\", \"1..\"]]".into())),
+                    // values that reduce to nothing, at every nesting position (range branch, plural form,
+                    // component body through an argument)
+                    ("e".to_string(), st("")),
+                    ("c".to_string(), s(vec![comp("b", vec![var("x")])])),
+                    ("cc".to_string(), Val::RawJson("\"$t(c, {\\\"x\\\": \\\"\\\"})\"".into())),
+                    ("rr".to_string(), Val::RawJson("[[\"$t(e)\", 0], [\"{{ count }} items\"]]".into())),
+                    ("rf".to_string(), Val::RawJson("[[\"x\", 0], [\"$t(e)\"]]".into())),
+                    ("q_one".to_string(), s(vec![fk("e")])),
+                    ("q_other".to_string(), s(vec![var("count"), text(" q")])),
                 ]
             };
             p.set_file(None, "en", mk("en"));
@@ -282,7 +291,7 @@ fn c09(tier: Tier) -> i32 {
     rep.sample(json!({"value_of_k": "[\"f32\", [\"x\", \"NaN\"], [\"y\"]]"}));
     rep.sample(json!({"value_of_k": inputs[inputs.len() / 3].1}));
     let mut cov = serde_json::Map::new();
-    cov.insert("rule".into(), json!("every value of the C09 file pipeline (token strings, range specs, JSON number classes, JSON shapes, foreign-key forms) plus non-finite / extreme float bounds and literals, in a two-locale project, through the real code generator load_locales() (macro crate sources compiled into this binary) in worker processes; oracle: Ok with tokens that parse as a Rust file (syn), or Err with non-empty message; never a panic or a dead process"));
+    cov.insert("rule".into(), json!("every value of the C09 file pipeline (token strings, range specs, JSON number classes, JSON shapes, foreign-key forms) plus non-finite / extreme float bounds and literals, in a two-locale project that also holds values reducing to nothing at every nested position (range branch, plural form, component body), through the real code generator load_locales() (macro crate sources compiled into this binary) in worker processes; oracle: Ok with tokens that parse as a Rust file (syn), or Err with non-empty message; never a panic or a dead process"));
     cov.insert("exhaustive".into(), json!(true));
     cov.insert("outcome_classes".into(), json!(*classes.lock().unwrap()));
     let _ = std::fs::remove_dir_all(&root);
